@@ -38,6 +38,9 @@ type Scenario struct {
 	// (dimension i of the box is ordinate i), they are not delivered to the
 	// replicas: what mixing such a layout with XYZ/XYM/XYZM means is not stated.
 	Wide []*mgeom.Geom `json:"wide,omitempty"`
+	// DefLayout, when not 0, is geojson.DefaultLayout during the run: the
+	// bounding box of a geometry does not depend on it.
+	DefLayout int `json:"def_layout,omitempty"`
 }
 
 // Later is one step of a message's later life.
@@ -119,6 +122,9 @@ func (prop) Decode(raw []byte) (any, error) {
 			}
 		}
 	}
+	if s.DefLayout < 0 || s.DefLayout > 4 {
+		return nil, fmt.Errorf("bad default layout")
+	}
 	if len(s.Later) > 8 || len(s.Wide) > 4 {
 		return nil, fmt.Errorf("too many later steps / wide geometries")
 	}
@@ -155,7 +161,7 @@ func (prop) Decode(raw []byte) (any, error) {
 }
 
 func valid(g *mgeom.Geom, depth int) error {
-	if depth > 6 {
+	if depth > 80 {
 		return fmt.Errorf("too deep")
 	}
 	if mgeom.Level(g.T) < 0 && g.T != mgeom.GC {
@@ -231,6 +237,18 @@ func (prop) Generate(r *prng.Rand, phase string) any {
 		}
 		s.Msgs = append(s.Msgs, &mgeom.Geom{T: mgeom.LS, L: l, P: [][][]mgeom.Coord{{cs}}})
 		n++
+	}
+	if r.Chance(0.004) {
+		// a geometry at the bottom of a deep chain of collections
+		inner := cfg.Gen(r, types[r.Intn(len(types))], 1+r.Intn(4), 3)
+		for d := []int{10, 33, 64}[r.Intn(3)]; d > 0; d-- {
+			inner = &mgeom.Geom{T: mgeom.GC, L: inner.EffLayout(), G: []*mgeom.Geom{inner}}
+		}
+		s.Msgs = append(s.Msgs, inner)
+		n++
+	}
+	if r.Chance(0.15) {
+		s.DefLayout = 1 + r.Intn(4)
 	}
 	reps := r.Range(2, 4)
 	for k := 0; k < reps; k++ {
@@ -456,6 +474,12 @@ func hasNested(m *mgeom.Geom) bool {
 func (prop) Execute(scAny any, phase string, log *core.Log) core.Result {
 	s := scAny.(*Scenario)
 	var res core.Result
+	if s.DefLayout != 0 {
+		old := geojson.DefaultLayout
+		geojson.DefaultLayout = geom.Layout(s.DefLayout)
+		defer func() { geojson.DefaultLayout = old }()
+		res.Count("probe:geojson-default-layout-set", 1)
+	}
 	n := len(s.Msgs)
 	geoms := make([]geom.T, n)
 	boxes := make([]box, n)
@@ -714,7 +738,22 @@ func (prop) Execute(scAny any, phase string, log *core.Log) core.Result {
 				}
 			}
 		}
-		for _, pt := range s.Points {
+		pts := append([]mgeom.Coord(nil), s.Points...)
+		if a := all[i]; a.Layout().Stride() >= 2 && a.Layout() != geom.NoLayout {
+			// points on the box's own corners and edges (closed intervals include them)
+			lo, hi, mix := make(mgeom.Coord, 4), make(mgeom.Coord, 4), make(mgeom.Coord, 4)
+			for d := 0; d < 4; d++ {
+				if d < a.Layout().Stride() {
+					lo[d], hi[d] = mgeom.F(a.Min(d)), mgeom.F(a.Max(d))
+					mix[d] = lo[d]
+					if d%2 == 1 {
+						mix[d] = hi[d]
+					}
+				}
+			}
+			pts = append(pts, lo, hi, mix)
+		}
+		for _, pt := range pts {
 			a := all[i]
 			for _, l := range []geom.Layout{geom.XY, geom.XYZ, geom.XYZM} {
 				if l.Stride() > a.Layout().Stride() || l.Stride() > len(pt) {
